@@ -803,9 +803,10 @@ Proof.
     rewrite !nth_vaxpy by congruence.
     set (pc := nth c p 0) in *. set (po := nth o p 0) in *. set (vc := nth c v 0) in *. set (vo := nth o v 0) in *.
     destruct Hs as [[H1 H2]|[H1 H2]].
-    - rewrite (Qmax0_pos _ H1), (Qmax0_pos _ H2). destruct (Qlt_le_dec 0 (2 - pc + po)); [ring | exfalso; lra].
-    - rewrite (Qmax0_nonpos (2 - pc + po)), (Qmax0_nonpos (2 - (pc + t * vc) + (po + t * vo))) by lra.
-      destruct (Qlt_le_dec 0 0); [exfalso; lra | ring]. }
+    - destruct (Qlt_le_dec 0 (Qmax0 (2 - pc + po))) as [q|q]; [|rewrite (Qmax0_pos _ H1) in q; exfalso; lra].
+      rewrite (Qmax0_pos _ H1), (Qmax0_pos _ H2). ring.
+    - destruct (Qlt_le_dec 0 (Qmax0 (2 - pc + po))) as [q|q]; [rewrite Qmax0_nonpos in q by lra; exfalso; lra|].
+      rewrite (Qmax0_nonpos (2 - pc + po)), (Qmax0_nonpos (2 - (pc + t * vc) + (po + t * vo))) by lra. ring. }
   setoid_replace ((qsum (map (fun o => sqr (hinge_mc_s c (vaxpy t v p) o)) (others c dim)) + 0) / 4 / 2
                   - (qsum (map (fun o => sqr (hinge_mc_s c p o)) (others c dim)) + 0) / 4 / 2)
     with ((qsum (map (fun o => sqr (hinge_mc_s c (vaxpy t v p) o)) (others c dim)) - qsum (map (fun o => sqr (hinge_mc_s c p o)) (others c dim))) / 8) by (unfold Qdiv; field).
